@@ -50,6 +50,13 @@ type PodP struct {
 	NoIdentity bool `json:"no_identity,omitempty"`
 }
 
+// ORev: an orphan (unowned) revision carrying the selector labels and/or the upgrade marker.
+type ORev struct {
+	Marker bool  `json:"marker,omitempty"` // carries the upgrade marker instead of the selector labels
+	Equal  bool  `json:"equal,omitempty"`  // same data as the set's current template revision
+	Rev    int64 `json:"rev"`
+}
+
 type World struct {
 	Spec SpecP `json:"spec"`
 	// Hist: template ids, oldest first; the last one is the set's current template. Each gets a revision
@@ -58,8 +65,9 @@ type World struct {
 	// CurRev: index into Hist that status.currentRevision is pointed at (-1: leave what the controller wrote)
 	CurRev int    `json:"cur_rev"`
 	Pods   []PodP `json:"pods,omitempty"`
-	// StaleCache: caches are filled before (true) or after (false) the constructed pods are added... no: see build
-	Ops []Op `json:"ops,omitempty"`
+	// OrphanRevs: unowned ControllerRevisions matching the selector (waiting for adoption)
+	OrphanRevs []ORev `json:"orphan_revs,omitempty"`
+	Ops        []Op   `json:"ops,omitempty"`
 }
 
 // Op kinds
@@ -83,15 +91,17 @@ const (
 	OpRestart
 	OpEditLimit
 	OpEditStrategy
+	OpSetRecreate // the set is deleted and re-created with a new UID (API only; caches lag until refreshed)
+	OpSetRemove   // the set disappears from the API (caches lag)
 	numOpKinds
 )
 
 var opNames = [...]string{"reconcile", "kubelet", "refreshAll", "refreshPod", "refreshSet", "editReplicas", "slotAdd", "slotRemove",
-	"editTemplate", "editPartition", "editMeta", "userDeletePod", "settle", "scaleInAt", "pause", "markDeleting", "restart", "editLimit", "editStrategy"}
+	"editTemplate", "editPartition", "editMeta", "userDeletePod", "settle", "scaleInAt", "pause", "markDeleting", "restart", "editLimit", "editStrategy", "setRecreate", "setRemove"}
 
 // Fault kinds for a reconcile op
 const (
-	FNone = iota
+	FNone           = iota
 	FServerError    // 500, not applied
 	FTimeoutLost    // timeout, not applied
 	FTimeoutApplied // applied, response lost
@@ -399,6 +409,21 @@ func BuildWorld(rep Rep, w *World) *Sys {
 			}
 		}
 	}
+	curRev := c.Rev(NS, s.RevOf[w.Hist[len(w.Hist)-1]])
+	for i, o := range w.OrphanRevs {
+		r := &appsv1.ControllerRevision{ObjectMeta: metav1.ObjectMeta{Name: fmt.Sprintf("orphan-rev-%d", i), Namespace: NS, Labels: map[string]string{}}, Revision: o.Rev}
+		if o.Marker {
+			r.Labels["apps.pingcap.com/upgrade-to-asts"] = s.Name
+		} else {
+			r.Labels["app"] = s.Name
+		}
+		if o.Equal {
+			r.Data = *curRev.Data.DeepCopy()
+		} else {
+			r.Data.Raw = []byte(strings.Replace(string(curRev.Data.Raw), `"image":"img:`, `"image":"oimg:`, 1))
+		}
+		c.Put(r)
+	}
 	c.RefreshAll()
 	initial := c.Dump()
 	s.Trace = append(s.Trace, func() string { return "initial state:\n" + initial })
@@ -606,6 +631,23 @@ func (s *Sys) envOp(k, a, b int) {
 	case OpMarkDeleting:
 		if c.MarkSetDeleting(NS, s.Name) {
 			s.logf("user: delete set (deletionTimestamp set)")
+		}
+	case OpSetRecreate:
+		if old := c.Set(NS, s.Name); old != nil {
+			c.Remove(sim.GVRASts, NS, s.Name)
+			n := old.DeepCopy()
+			n.UID = ""
+			n.ResourceVersion = ""
+			n.DeletionTimestamp = nil
+			n.CreationTimestamp = metav1.Time{}
+			n.Generation = 1
+			n.Status = asv1.StatefulSetStatus{}
+			c.Put(n)
+			s.logf("user: set deleted and re-created (new uid %s)", c.Set(NS, s.Name).UID)
+		}
+	case OpSetRemove:
+		if c.Remove(sim.GVRASts, NS, s.Name) {
+			s.logf("user: set removed from the API")
 		}
 	case OpRestart:
 		c.Restart()
